@@ -214,7 +214,9 @@ def run(ctx):
         tid += 1
         traces.append({"tid": tid, "meta": {"n": n, "base": cz.graph_edges1(g), "family": "rgs"}, "n": n,
                        "base": cz.graph_edges1(g), "need_orbit": True, "events": evs})
-    for n in (5, 6) if ctx.quick else (5, 6, 7):
+    # the scripted explorer called again and again in one process, sizes interleaved (4, 3, 4, 6, 5, 6, ...): each call
+    # on its own must return distinct graphs of the orbit ("a list of distinct graphs in the orbit")
+    for n in (4, 3, 4, 6, 5, 6, 4, 5) if ctx.quick else (4, 3, 4, 6, 5, 6, 4, 5, 7, 6, 7, 3):
         g = nx.path_graph(n)
         evs = []
         try:
@@ -222,7 +224,7 @@ def run(ctx):
             out = {"err": "", "graphs": [graph_out(h, n) for h in res]}
         except Exception as ex:
             out = {"err": type(ex).__name__, "graphs": []}
-        evs.append({"fn": "orbit", "via": "linear_partial_orbit", "distinct": False, "out": out})
+        evs.append({"fn": "orbit", "via": "linear_partial_orbit", "distinct": True, "out": out})
         tid += 1
         traces.append({"tid": tid, "meta": {"n": n, "base": cz.graph_edges1(g), "family": "linear"}, "n": n,
                        "base": cz.graph_edges1(g), "need_orbit": True, "events": evs})
@@ -251,7 +253,8 @@ def run(ctx):
             tid += 1
             traces.append({"tid": tid, "meta": {"n": n, "base": cz.graph_edges1(g), "family": "big-iso"}, "n": n,
                            "base": cz.graph_edges1(g), "need_orbit": False, "events": evs})
-    big = [(nx.path_graph(n), "linear_partial_orbit", lambda h: rm.linear_partial_orbit(h), False) for n in ((7, 8) if ctx.quick else (7, 8, 9, 10))]
+    big = [(nx.path_graph(n), "linear_partial_orbit", lambda h: rm.linear_partial_orbit(h), True)
+           for n in ((8, 7, 8) if ctx.quick else (8, 7, 8, 10, 9, 10))]
     big += [(rgs(4), "rgs_orbit_finder", lambda h: rm.rgs_orbit_finder(h), False)]
     for _ in range(2 if ctx.quick else 10):
         n = rng.choice([7, 8])
